@@ -19,7 +19,8 @@ CHECKS = {
 
 CHECKS["C01"] = ("model_checking",
     "TLC exhaustive model checking of the stepper design (IvpProtocol) against the contract (IvpContract) over integer ticks; "
-    "the model's configurations replayed on the real solvers; recorded paths validated by TLC against IvpContract over IEEE doubles",
+    "the model's configurations replayed on the real solvers; recorded paths validated by TLC against IvpContract over IEEE doubles; "
+    "step() snapshots and every derivative-evaluation time of a third of the runs validated against the same IvpProtocol over doubles",
     "E1: every behaviour of the design model (all verdict sequences, controller choices, fault points, all configurations in scope) "
     "satisfies the contract and terminates. E2/E3: each real path (model configurations and seeded random ones) is checked event by "
     "event by TLC against the same contract instantiated over doubles. The model is an abstraction (integer ticks, nondeterministic "
